@@ -107,8 +107,12 @@ def fresh(arities, V, fixed=None):
             sx.check(False, "query %s fails on a freshly built mesh" % name, detail=repr(e))
             return
         # the same query after everything else has been asked gives the same answer
-        for _, g in qs:
-            g()
+        for other, g in qs:
+            try:
+                g()
+            except Exception as e:
+                sx.check(False, "query %s fails on a mesh where %s was the first query" % (other, name), detail=repr(e))
+                return
         again = fn()
         same = (list(first) == list(again)) if hasattr(first, "__iter__") and not isinstance(first, tuple) else first == again
         sx.check(same, "query %s answers the same on a fresh mesh and after other queries" % name,
